@@ -155,6 +155,17 @@ def arith_rows(rng, n, rows):
         rows.append({'op': 'mul', 'x': dx, 'y': dy, 'got': dyadic_of_fpnum(x.mul(y))})
         rows.append({'op': 'cmp', 'x': dx, 'y': dy, 'got': x.compare(y)})
         rows.append({'op': 'cmp', 'x': dy, 'y': dx, 'got': y.compare(x)})
+        # the same OBJECT on both sides (x + x, x - x, x * x, x ? x), a result used as both operands, and operands that
+        # are still what they were after having been used
+        rows.append({'op': 'add', 'x': dx, 'y': dx, 'got': dyadic_of_fpnum(x.add(x))})
+        rows.append({'op': 'sub', 'x': dx, 'y': dx, 'got': dyadic_of_fpnum(x.sub(x))})
+        rows.append({'op': 'mul', 'x': dx, 'y': dx, 'got': dyadic_of_fpnum(x.mul(x))})
+        rows.append({'op': 'cmp', 'x': dx, 'y': dx, 'got': x.compare(x)})
+        sq = x.mul(y)
+        dsq = dyadic_of_fpnum(sq)
+        rows.append({'op': 'sub', 'x': dsq, 'y': dsq, 'got': dyadic_of_fpnum(sq.sub(sq))})
+        rows.append({'op': 'cmp', 'x': dx, 'y': dx, 'got': x.compare(FPNum(b1, fmt))})
+        rows.append({'op': 'cmp', 'x': dy, 'y': dy, 'got': y.compare(FPNum(b2, fmt))})
         # values that went through a precision reduction keep their ordering
         z = FPNum(b1, fmt)
         z.reducePrecisionWithRounding(rng.choice([3, mw // 2, mw - 1]))
